@@ -37,6 +37,25 @@ type DemuxCfg struct {
 	HasSeekFail   bool
 	SeekFailIdx   int             // index of the Seek call that fails (when HasSeekFail)
 	Ctx           context.Context // nil: context.Background()
+	Groups        *GroupRec       // when set (and Parser is nil): an observing PacketsParser that records the groups it is handed
+}
+
+// GroupRec records, into whatever Sink points at, one line per group an observing PacketsParser is handed: PID and continuity
+// counters of its packets.
+type GroupRec struct{ Sink *[]string }
+
+func (g *GroupRec) parser(ps []*astits.Packet) ([]*astits.DemuxerData, bool, error) {
+	if g.Sink != nil {
+		l := ""
+		for k, p := range ps {
+			if k == 0 {
+				l = fmt.Sprintf("%#x:", p.Header.PID)
+			}
+			l += fmt.Sprintf(" %d/%d", p.Header.ContinuityCounter, len(p.Payload))
+		}
+		*g.Sink = append(*g.Sink, l)
+	}
+	return nil, false, nil
 }
 
 func (c DemuxCfg) String() string {
@@ -73,8 +92,9 @@ type DemuxRun struct {
 	EOFAt      int // call index of the first ErrNoMorePackets, -1 if never
 	Panic      string
 	PanicClass string
-	PostEOFBad string // a call after ErrNoMorePackets returned something else
-	WrappedEOF string // a call returned an error that wraps ErrNoMorePackets instead of the sentinel itself
+	PostEOFBad string   // a call after ErrNoMorePackets returned something else
+	WrappedEOF string   // a call returned an error that wraps ErrNoMorePackets instead of the sentinel itself
+	Groups     []string // groups handed to the observing parser (runWithGroups)
 	Tap        *mon.RTap
 	Dmx        *astits.Demuxer
 	PacketSize int // framing used (set by callers that need offsets; 0 = 188)
@@ -148,6 +168,8 @@ func NewDemuxerFor(input []byte, cfg DemuxCfg) (*astits.Demuxer, *mon.RTap) {
 	}
 	if cfg.Parser != nil {
 		opts = append(opts, astits.DemuxerOptPacketsParser(cfg.Parser))
+	} else if cfg.Groups != nil {
+		opts = append(opts, astits.DemuxerOptPacketsParser(cfg.Groups.parser))
 	}
 	if cfg.Logger != nil {
 		opts = append(opts, astits.DemuxerOptLogger(cfg.Logger))
